@@ -194,3 +194,19 @@ _H2 = {
 for _pid, _extra in _H2.items():
     _ref, _tech, _text, _note = CHECKS[_pid]
     CHECKS[_pid] = (_ref, _tech, _text + _extra, _note)
+
+# round 6 of independent mutants / regression review g1
+_R6 = {
+    "C06": " The first handler that can take an error of a service call decides (an inner handler that swallows it is reported); the failure slot is written by "
+           "the consumer thread only.",
+    "C07": " A suspension may be kept only by the handler wrapper and by the branch done-callback (who-may-catch table).",
+    "C09": " A branch's state is published before its outcome is counted.",
+    "C12": " A constant attempt number needs evidence on the path that nothing is recorded; the backoff power carries the exponent (attempts_made - 1).",
+    "C15": " Frames per nesting level are computed on the resolved call graph (cheapest encoder arm against dearest decoder arm).",
+    "C18": " Every SDK function that is handed the user's exception guards its text.",
+    "C19": " __exit__ is judged on two argument scenarios (normal, some BaseException), not by the shape of its test.",
+    "C20": " Codec functions depend on their argument only (no module-level mutable state, no caches).",
+}
+for _pid, _extra in _R6.items():
+    _ref, _tech, _text, _note = CHECKS[_pid]
+    CHECKS[_pid] = (_ref, _tech, _text + _extra, _note)
